@@ -29,14 +29,17 @@ import refsolver  # noqa: E402  (reader / renderer and the in-process Strict mac
 
 LEAN_MODULES = ["PySMT.Props.C17"]
 RULE = ("API-call sequences over add_assertion(14 formulas: Bool/BV/Int/one 0-ary and one binary custom sort/arrays whose "
-        "index or element sort is a custom sort occurring nowhere else, overlapping symbols) / push(1|2) / pop(1|2) / solve / get_value / get_model / reset_assertions / is_sat / is_valid / is_unsat, "
-        "user-legal (pop within the user's stack, get_value/get_model only directly after a sat verdict); exhaustive up to "
-        "the stated length (every prefix is checked while the maximal sequence runs) plus sampled long ones; a case is "
+        "index or element sort is a custom sort occurring nowhere else, overlapping symbols) / push(0|1|2|3) / pop(0|1|2|3) / "
+        "solve / get_value / get_model / reset_assertions / is_sat / is_valid / is_unsat, user-legal (pop within the user's "
+        "stack, get_value/get_model only directly after a sat verdict); every case in one of 3 environments of the process, "
+        "with one of 4 legal layouts of the solver's replies, 1 in 10 with a companion solver alive in another environment; "
+        "exhaustive up to the stated length (every prefix is checked while the maximal sequence runs) plus sampled long ones, "
+        "witness scenarios, over-pop sequences on a lenient solver (K only), the factory shortcuts (S only); a case is "
         "non-trivial when at least one declaration is sent and the stack is moved or reset")
 ASSUMPTIONS = [
-    "the solver process answers every command with exactly one reply line (refsolver.py does; StrictSolver.respond), and "
-    "a reply is consumed as a whole (the model's recv); pySMT's parser stops in the middle of a reply only when it "
-    "raises on it, which happens for the known findings F36/F37 -- a case ends at the first such exception",
+    "the solver process answers every command with exactly one reply (refsolver.py does; StrictSolver.respond); a reply "
+    "is consumed as a whole (the model's recv): _get_answer reads a line, _get_value_answer reads the complete "
+    "s-expression before parsing it (fix 5b9146c, F75)",
     "formulas are abstracted to (id, free symbols, custom sort declarations) of formula.simplify(); simplify, "
     "get_free_variables, get_types and the SMT-LIB printer are the subject of C01/C12/C07",
     "one symbol per name, one sort declaration per name (FormulaManager/TypeManager, C04): theorem hypothesis Universe",
@@ -58,11 +61,12 @@ _POOL = None
 class Pool(object):
     """formulas with an independent Python reading, symbols, terms"""
 
-    def __init__(self):
+    def __init__(self, env=None):
         from pysmt.environment import get_env
-        from pysmt.typing import BOOL, INT, BVType
-        env = get_env()
+        from pysmt.typing import BOOL, INT
+        env = env or get_env()
         self.env = env
+        BVType = env.type_manager.BVType
         mgr = env.formula_manager
         tm = env.type_manager
         U = tm.Type("U")
@@ -120,8 +124,7 @@ class Pool(object):
                     lambda e: e["m2"][e["j1"]] != e["m2"][e["j2"]], ["m2", "j1", "j2"]),
         }
         # checked statically only (function symbols are outside the wrapper model): V below an array-typed parameter
-        from pysmt.typing import FunctionType
-        g = S("g", FunctionType(BOOL, [tm.ArrayType(BV1, V)]))
+        g = S("g", tm.FunctionType(BOOL, [tm.ArrayType(BV1, V)]))
         self.static_only = {"Fg": (m.Function(g, [m1]), ["V"]),
                             "Fgs": (m.Function(g, [m.Store(m1, j1, m.Select(m1, j2))]), ["V"])}
         self.not_ = m.Not
@@ -175,11 +178,20 @@ class Pool(object):
         return self.by_text[self.text(node)], node
 
 
+_POOLS = {}
+_CUR = 0        # index of the environment the case at hand lives in (0 = the global environment)
+N_ENVS = 3
+
+
 def pool():
-    global _POOL
-    if _POOL is None:
-        _POOL = Pool()
-    return _POOL
+    """the formulas, built in the environment of the current case (the same formulas exist in every environment)"""
+    if _CUR not in _POOLS:
+        if _CUR == 0:
+            _POOLS[0] = Pool()
+        else:
+            from pysmt.environment import Environment
+            _POOLS[_CUR] = Pool(Environment())
+    return _POOLS[_CUR]
 
 
 # ----------------------------------------------------------------------------------- brute-force truth
@@ -225,8 +237,6 @@ def models_of(fids):
 
 
 # ------------------------------------------------------------------------------ running the real wrapper
-_SOLVER_NAME = None
-_LOG_PATH = None
 
 
 def const_text(node):
@@ -263,21 +273,30 @@ def _cleanup():
         _TMP = None
 
 
-def setup():
-    """register the reference solver under a per-process name and record the wrapper's reads and writes"""
-    global _SOLVER_NAME, _LOG_PATH
-    if _SOLVER_NAME == "c17ref%d" % os.getpid():
-        return
+_REGISTERED = set()
+
+
+def solver_name(lenient=False, layout=0, slot="m"):
+    """name of the reference solver (registered on demand in the factory of the current case's environment) and the
+    file it logs to; `slot` tells the main solver of a case from its companion"""
     from pysmt.logics import QF_AUFBVLIRA
-    from pysmt.smtlib.solver import SmtLibSolver
     P = pool()
-    _SOLVER_NAME = "c17ref%d" % os.getpid()
-    _LOG_PATH = os.path.join(_tmp_root(), "log%d" % os.getpid())
-    P.env.factory.add_generic_solver(
-        _SOLVER_NAME,
-        [sys.executable, "-S", "-E", "-B", os.path.join(HARNESS, "refsolver.py"), "--log", _LOG_PATH,
-         "--int-range", str(INT_RANGE), "--usize", str(USIZE)],
-        [QF_AUFBVLIRA])
+    name = "c17ref%d%s%s%d" % (os.getpid(), slot, "L" if lenient else "S", layout)
+    logp = os.path.join(_tmp_root(), "log%d%s" % (os.getpid(), slot))
+    if (_CUR, name) not in _REGISTERED:
+        P.env.factory.add_generic_solver(
+            name,
+            [sys.executable, "-S", "-E", "-B", os.path.join(HARNESS, "refsolver.py"), "--log", logp,
+             "--int-range", str(INT_RANGE), "--usize", str(USIZE), "--layout", str(layout)]
+            + (["--lenient-pop"] if lenient else []),
+            [QF_AUFBVLIRA])
+        _REGISTERED.add((_CUR, name))
+    return name, logp
+
+
+def setup():
+    """record the wrapper's reads and writes (wrappers around three methods of the class, in the harness only)"""
+    from pysmt.smtlib.solver import SmtLibSolver
     if not getattr(SmtLibSolver, "_c17_patched", False):
         o_send, o_ans, o_val = SmtLibSolver._send_command, SmtLibSolver._get_answer, SmtLibSolver._get_value_answer
 
@@ -363,13 +382,104 @@ def _reprobe(rec, kept, after):
             rec["model_changes"].append({"model_call": call, "after_call": after, "then": then, "now": now})
 
 
-def run_real(ops):
-    """run one API-call sequence on the real wrapper; stops at the first exception or user-illegal call"""
+def env_check(P, label, node, acc):
+    """a node handed to the user must belong to the formula manager of the environment his solver lives in"""
+    try:
+        ok = node in P.env.formula_manager
+    except Exception as e:      # noqa
+        ok = False
+        label += " (%s)" % type(e).__name__
+    if not ok:
+        acc.append(["foreign-node", "%s = %s is not a formula of the solver's environment" % (label, node)])
+
+
+def model_env_check(P, call, mdl, acc):
+    """keys and values of a model belong to the solver's environment, and evaluating the pool formulas over the
+    model's symbols *in that environment* gives what the hand-written predicates give on the model's values"""
+    vals = {}
+    usable = True
+    for k, v in mdl:
+        env_check(P, "call %s: model key %s" % (call, k), k, acc)
+        env_check(P, "call %s: model value of %s" % (call, k), v, acc)
+        n = k.symbol_name()
+        if n in P.symbols and not P.symbols[n]["custom"] and v.is_constant():
+            vals[n] = v.constant_value()
+        else:
+            usable = False if n in P.symbols and not P.symbols[n]["custom"] else usable
+    if not usable:
+        return
+    for fid, (f, pred, names) in P.formulas.items():
+        if all(n in vals for n in names):
+            want = bool(pred(vals))
+            try:
+                got = mdl.get_value(f)
+                env_check(P, "call %s: model.get_value(%s)" % (call, fid), got, acc)
+                if not (got.is_bool_constant() and got.constant_value() == want):
+                    acc.append(["evaluation", "call %s: model.get_value(%s) = %s, the predicate on the model's values %s gives %s"
+                                % (call, fid, got, vals, want)])
+            except CaseTimeout:
+                raise
+            except Exception as e:      # noqa
+                acc.append(["evaluation", "call %s: model.get_value(%s) raised %s: %s" % (call, fid, type(e).__name__,
+                                                                                         str(e)[:120])])
+
+
+class Companion(object):
+    """a second solver object, alive at the same time as the solver of the case, in ANOTHER environment: it is created
+    first, queried once at the start and once in the middle of the case"""
+
+    def __init__(self, envk, layout, acc):
+        global _CUR
+        from pysmt.logics import QF_AUFBVLIRA
+        self.acc = acc
+        self.envk = envk
+        save = _CUR
+        _CUR = envk
+        try:
+            self.P = pool()
+            name, logp = solver_name(False, layout, "c")
+            open(logp, "w").close()
+            self.s = self.P.env.factory.Solver(name=name, logic=QF_AUFBVLIRA)
+        finally:
+            _CUR = save
+
+    def session(self, tag, fid):
+        P, s = self.P, self.s
+        try:
+            s.push()
+            s.add_assertion(P.formulas[fid][0])
+            if s.solve():
+                for n in P.formulas[fid][2]:
+                    env_check(P, "companion (environment %d) %s: get_value(%s)" % (self.envk, tag, n),
+                              s.get_value(P.symbols[n]["node"]), self.acc)
+                model_env_check(P, "companion (environment %d) %s" % (self.envk, tag), s.get_model(), self.acc)
+        except CaseTimeout:
+            raise
+        except Exception as e:      # noqa
+            self.acc.append(["companion-exception", "companion (environment %d) %s raised %s: %s"
+                             % (self.envk, tag, type(e).__name__, str(e)[:120])])
+
+    def close(self):
+        try:
+            self.s.exit()
+            self.s.solver.wait(timeout=2)
+        except BaseException:       # noqa
+            pass
+
+
+def run_real(ops, lenient=False, layout=0, companion=None):
+    """run one API-call sequence on the real wrapper; stops at a user-illegal call and at the first exception that is
+    not the documented outcome of the call (unknown verdict; a value query the solver refuses or whose value cannot be
+    read leaves solver and wrapper as they were, the sequence goes on).  `lenient`: against the solver that tolerates
+    popping too much, user-illegal pops allowed, never stops (K only)."""
     setup()
     from pysmt.logics import QF_AUFBVLIRA
     P = pool()
-    rec = {"ops": [], "outs": [], "states": [], "groups": [0], "values": [], "cut": None, "init_exc": None}
+    rec = {"ops": [], "outs": [], "states": [], "groups": [0], "values": [], "cut": None, "init_exc": None,
+           "lenient": lenient, "layout": layout, "env": _CUR, "companion": companion, "env_problems": []}
+    name, _LOG_PATH = solver_name(lenient, layout)
     open(_LOG_PATH, "w").close()
+    comp = None
     old = signal.signal(signal.SIGALRM, _alarm)
     signal.setitimer(signal.ITIMER_REAL, CASE_TIMEOUT)
     s = None
@@ -378,7 +488,10 @@ def run_real(ops):
     rec["model_changes"] = []
     try:
         try:
-            s = P.env.factory.Solver(name=_SOLVER_NAME, logic=QF_AUFBVLIRA)
+            if companion is not None and companion != _CUR:
+                comp = Companion(companion, layout, rec["env_problems"])
+                comp.session("at the start", "Fab")
+            s = P.env.factory.Solver(name=name, logic=QF_AUFBVLIRA)
         except CaseTimeout:
             rec["init_exc"] = "CaseTimeout"
         except Exception as e:      # noqa
@@ -386,9 +499,11 @@ def run_real(ops):
         if s is not None:
             ev = s.__dict__.setdefault("_c17_events", [])
             rec["groups"].append(len(ev))
-            for op in ops:
+            for opi, op in enumerate(ops):
                 kind = op[0]
-                if kind == "pop" and op[1] > depth:
+                if comp is not None and opi == (len(ops) + 1) // 2:
+                    comp.session("in the middle", "Fvi")
+                if kind == "pop" and op[1] > depth and not lenient:
                     rec["cut"] = "pop beyond the user's stack"
                     break
                 if kind in ("getv", "model") and not satmode:
@@ -414,10 +529,12 @@ def run_real(ops):
                         r = s.get_value(P.terms[op[1]])
                         out = "val"
                         value = const_text(r)
+                        env_check(P, "call %d: get_value(%s)" % (opi, op[1]), r, rec["env_problems"])
                     elif kind == "model":
                         mdl = s.get_model()
                         value = sorted([k.symbol_name(), const_text(x)] for k, x in mdl)
                         out = "model:" + ",".join(k for k, _ in value)
+                        model_env_check(P, opi, mdl, rec["env_problems"])
                     elif kind == "is_sat":
                         out = "true" if s.is_sat(P.formulas[op[1]][0]) else "false"
                     elif kind == "is_valid":
@@ -439,12 +556,16 @@ def run_real(ops):
                 _reprobe(rec, kept, len(rec["ops"]) - 1)
                 if kind == "model" and not out.startswith("exc:"):
                     kept.append((len(rec["ops"]) - 1, mdl, probe_model(mdl, [k for k, _ in value])))
-                if out.startswith("exc:") and out != "exc:SolverReturnedUnknownResultError":
+                if out == "exc:CaseTimeout":
                     break
+                if out.startswith("exc:") and out != "exc:SolverReturnedUnknownResultError" and not lenient:
+                    if kind not in ("getv", "model"):
+                        break
+                    continue        # nothing changed: still in sat mode
                 if kind == "push":
                     depth += op[1]
                 elif kind == "pop":
-                    depth -= op[1]
+                    depth = max(0, depth - op[1])
                 elif kind == "reset":
                     depth = 0
                 if kind in VERDICT_OPS:
@@ -454,6 +575,8 @@ def run_real(ops):
     finally:
         signal.setitimer(signal.ITIMER_REAL, 0)
         signal.signal(signal.SIGALRM, old)
+        if comp is not None:
+            comp.close()
         if s is not None:
             try:
                 s.exit()
@@ -551,7 +674,8 @@ def model_request(rec):
             fid, node = P.sent(op)
             toks.append({"is_sat": "I", "is_valid": "L", "is_unsat": "U"}[k] + P.abstraction(fid, node))
     verdicts = [r for c, r in rec["log"] if r in ("sat", "unsat", "unknown")]
-    return "smtsolver QF_AUFBVLIRA %s %s X" % (",".join(verdicts) or "-", " ".join(toks))
+    return "%s QF_AUFBVLIRA %s %s X" % ("smtsolver-lenient" if rec.get("lenient") else "smtsolver",
+                                        ",".join(verdicts) or "-", " ".join(toks))
 
 
 def real_answer(rec):
@@ -581,6 +705,8 @@ def real_answer(rec):
                 out = "err:solver-error"
             elif name == "SolverReturnedUnknownResultError":
                 out = "err:unknown-result"
+            elif name == "IndexError":
+                out = "err:index-error"
             elif op[0] in ("getv", "model") and name in ("PysmtSyntaxError", "UndefinedSymbolError", "PysmtTypeError",
                                                          "PysmtValueError", "AssertionError", "StopIteration"):
                 out = "err:bad-value"
@@ -606,7 +732,7 @@ def parse_model_answer(ans):
         if not t:
             continue
         f = t.split("@")
-        lv = lambda s: [[n for n in l.split(",") if n] for l in s.split(";")]
+        lv = lambda s: [] if s == "-" else [[n for n in l.split(",") if n] for l in s.split(";")]
         entries.append([f[0], lv(f[1]), lv(f[2]), f[3] == "T", int(f[4])])
     return groups, entries, parts[2]
 
@@ -617,26 +743,25 @@ def compare_with_model(rec, ans):
     if m is None:
         return ["model answered %r" % ans[:200]]
     mgroups, mentries, tail = m
-    rgroups, rentries = real_answer(rec)
+    rgroups, rentries = rec["real_answer"] if "real_answer" in rec else real_answer(rec)
     diffs = []
     # the last real group is exit(); the model got an explicit X
     kinds = ["init"] + [op[0] for op in rec["ops"]] + ["exit"]
     if len(mgroups) != len(rgroups):
         diffs.append("number of call groups: model %d real %d" % (len(mgroups), len(rgroups)))
     # F37 (known): a value the parser cannot read (custom sort, array over a custom sort) makes get_value / get_model
-    # raise in the middle of their queries, while every value is readable for the abstract model.  For that last call
+    # raise in the middle of their queries, while every value is readable for the abstract model.  For such a call
     # only "the queries sent are among the model's" and the bookkeeping are compared.
-    unread = None
-    if rentries and mentries and len(mentries) >= len(rentries):
-        li = len(rentries) - 1
+    unread = set()
+    for li in range(min(len(rentries), len(mentries))):
         if rec["ops"][li][0] in ("getv", "model") and rentries[li][0].startswith(("err:", "exc:")) \
                 and not mentries[li][0].startswith("err:"):
-            unread = li
+            unread.add(li)
     for gi, (mg, rg) in enumerate(zip(mgroups, rgroups)):
         kind = kinds[gi] if gi < len(kinds) else "?"
         if kind == "model":
             mg, rg = sorted(mg), sorted(rg)
-        if unread is not None and gi == unread + 1:
+        if gi - 1 in unread:
             if [t for t in rg if t not in mg]:
                 diffs.append("stream of call %d (%s): real %s not among model %s" % (gi - 1, kind, " ".join(rg), " ".join(mg)))
                 break
@@ -645,7 +770,7 @@ def compare_with_model(rec, ans):
             diffs.append("stream of call %d (%s): model %s real %s" % (gi - 1, kind, " ".join(mg), " ".join(rg)))
             break
     for oi, (me, re_) in enumerate(zip(mentries, rentries)):
-        if me[0] != re_[0] and oi != unread:
+        if me[0] != re_[0] and oi not in unread:
             diffs.append("result of call %d (%s): model %s real %s" % (oi, rec["ops"][oi][0], me[0], re_[0]))
             break
         if me[1] != re_[1] or me[2] != re_[2] or me[3] != re_[3]:
@@ -670,12 +795,18 @@ def analyse(rec):
     """S oracles on one real run -> list of (sig, what)"""
     P = pool()
     out = []
+    if rec.get("lenient"):
+        return out          # user-illegal pops on a test double: correspondence only
     if rec["init_exc"]:
         out.append(({"oracle": "exception", "call": "__init__", "exc": rec["init_exc"].split(":")[0]},
                     "constructor raised " + rec["init_exc"]))
         return out
     ev, log, bounds = rec["events"], rec["log"], rec["groups"]
     kinds = ["__init__"] + [OPNAME[op[0]] for op in rec["ops"]] + ["exit"]
+    for kind_, text in rec.get("env_problems", [])[:4]:
+        out.append(({"oracle": "environment", "defect": kind_},
+                    "solver in environment %s%s: %s" % (rec.get("env"), "" if rec.get("companion") is None else
+                                                       " with a companion solver in environment %s" % rec["companion"], text)))
     for ch in rec.get("model_changes", []):
         after = ch["after_call"]
         later = OPNAME[rec["ops"][after][0]] if after < len(rec["ops"]) else "exit"
@@ -746,23 +877,23 @@ def analyse(rec):
         out.append((sig_({"oracle": "sync", "call": kinds[gi], "prev": prev}),
                     "desynchronised: %s (call %d = %s)" % (sync_bad[1], gi - 1, kinds[gi])))
 
-    # ---- strict: first command the reference solver rejected
+    # ---- strict: commands the reference solver rejected (the first one of each call)
     send_call = []
     for idx, e in enumerate(ev):
         if e[0] == "send":
             send_call.append(call_of(idx))
-    first_err = None
+    err_of_call = {}        # call group -> index of the first command of that call the solver rejected
     for k, (c, r) in enumerate(log):
-        if r.startswith("(error"):
-            first_err = k
-            break
+        if r.startswith("(error") and k < len(send_call):
+            err_of_call.setdefault(send_call[k], k)
 
     # walk through the calls to build the user-level view, checking verdicts / models on the way
     for oi, (op, res) in enumerate(zip(rec["ops"], rec["outs"])):
         kind = op[0]
         gi = oi + 1
         live_before = [f for lvl in stack for f in lvl]
-        if first_err is not None and first_err < len(send_call) and send_call[first_err] == gi:
+        if gi in err_of_call:
+            first_err = err_of_call[gi]
             c, r = log[first_err]
             shape = ""
             if kind == "getv":
@@ -1185,6 +1316,25 @@ SCENARIOS = [
 ]
 
 
+# K only: pops beyond the user's stack on a solver that tolerates them (`list.pop()` on the emptied declaration stack,
+# `declared_vars[-1]` after the declaration was sent) -- the unconditional theorems quantify over every solver process
+OVERPOP = [
+    [["add", "Fa"], ["pop", 1], ["add", "Fab"], ["solve"]],
+    [["push", 1], ["add", "Fa"], ["pop", 2], ["add", "Fab"], ["push", 1], ["add", "Fa"], ["solve"], ["model"]],
+    [["pop", 3], ["add", "Fu"], ["push", 2], ["add", "Fu"], ["pop", 5], ["solve"], ["reset"], ["add", "Fu"], ["solve"]],
+    [["push", 2], ["pop", 4], ["is_sat", "Fa"], ["model"], ["push", 1], ["is_sat", "Fab"]],
+    [["push", 2], ["add", "Fvi"], ["pop", 3], ["push", 1], ["add", "Fvi"], ["pop", 1], ["pop", 1], ["add", "Fa"]],
+    [["is_sat", "Fa"], ["pop", 1], ["pop", 1], ["add", "Fab"], ["reset"], ["add", "Fab"], ["solve"], ["model"]],
+]
+
+
+def random_overpop(rng):
+    seq = random_sequence(rng, rng.randint(4, 9))
+    for _ in range(rng.randint(1, 2)):
+        seq.insert(rng.randint(0, len(seq)), ["pop", rng.randint(1, 4)])
+    return seq
+
+
 def nontrivial_key(rec):
     toks = [t for g in real_answer(rec)[0] for t in g]
     if any(t.startswith("df:") or t.startswith("ds:") for t in toks) and \
@@ -1194,15 +1344,135 @@ def nontrivial_key(rec):
 
 
 # ------------------------------------------------------------------------------ driving
-def _work(ops):
+def as_case(case):
+    if isinstance(case, dict):
+        return case
+    return {"ops": case}
+
+
+def case_of(rec):
+    """the self-contained description of a case (what a replay needs)"""
+    return {"ops": rec["ops"], "lenient": bool(rec.get("lenient")), "layout": rec.get("layout", 0),
+            "env": rec.get("env", 0), "companion": rec.get("companion"), "factory": bool(rec.get("factory"))}
+
+
+def _work_factory(case):
+    """S only: the same functionality reached through the factory shortcuts `Factory.is_sat / is_valid / is_unsat /
+    get_model(formula, solver_name=<the reference solver>)` (factory.py: they build a non-incremental solver, make the
+    calls, exit).  Verdict vs brute-force truth, model nodes of the right environment, model satisfies the formula, no
+    command rejected by the strict solver."""
+    global _CUR
+    from pysmt.logics import QF_AUFBVLIRA
+    _CUR = case.get("env", 0) or 0
+    layout = case.get("layout", 0) or 0
+    kind, fid = case["ops"][0]
+    rec = {"ops": [[kind, fid]], "outs": [], "cut": None, "log": [], "factory": True, "env": _CUR, "layout": layout,
+           "states": [], "values": [], "companion": case.get("companion")}
+    viol = []
+    comp = None
+    old = signal.signal(signal.SIGALRM, _alarm)
+    signal.setitimer(signal.ITIMER_REAL, CASE_TIMEOUT)
     try:
-        rec = run_real(ops)
+        P = pool()
+        if case.get("companion") is not None and case["companion"] != _CUR:
+            acc0 = []
+            comp = Companion(case["companion"], layout, acc0)
+            comp.session("before the shortcut", "Fab")
+            for k_, t_ in acc0[:2]:
+                viol.append(({"oracle": "environment", "defect": k_, "call": "companion"}, t_))
+        name, logp = solver_name(False, layout)
+        open(logp, "w").close()
+        f, pred, names = P.formulas[fid]
+        fac = P.env.factory
+        unknown = "UNKNOWN_k" in names
+        try:
+            if kind == "model":
+                mdl = fac.get_model(f, solver_name=name, logic=QF_AUFBVLIRA)
+                out = "none" if mdl is None else "model:" + ",".join(sorted(k.symbol_name() for k, _ in mdl))
+            else:
+                r = {"is_sat": fac.is_sat, "is_valid": fac.is_valid, "is_unsat": fac.is_unsat}[kind](
+                    f, solver_name=name, logic=QF_AUFBVLIRA)
+                out = "true" if r else "false"
+        except CaseTimeout:
+            out = "exc:CaseTimeout"
+        except Exception as e:      # noqa
+            out = "exc:" + type(e).__name__ + ": " + str(e)[:100]
+        rec["outs"].append(out)
+        try:
+            lines = open(logp).read().split("\n")
+        except OSError:
+            lines = []
+        for k in range(0, len(lines) - 1, 2):
+            if lines[k].startswith("> ") and lines[k + 1].startswith("< "):
+                rec["log"].append([lines[k][2:], lines[k + 1][2:]])
+        call = "Factory." + ("get_model" if kind == "model" else kind)
+        for c, r in rec["log"]:
+            if r.startswith("(error"):
+                viol.append(({"oracle": "strict", "call": call, "error": classify_error(r), "shape": ""},
+                             "%s(%s): the strict solver rejected %s: %s" % (call, fid, c, r)))
+                break
+        sat = models_of([fid]) if kind in ("is_sat", "is_unsat", "model") else models_of(["N" + fid])
+        if out.startswith("exc:"):
+            custom = any(P.symbols[n]["custom"] for n in names)
+            if not (unknown and "SolverReturnedUnknownResultError" in out) and not viol:
+                d = {"oracle": "exception", "call": call, "exc": out[4:].split(":")[0]}
+                if custom and kind == "model":
+                    d["defect"] = "custom-sort-value"
+                viol.append((d, "%s(%s) raised %s" % (call, fid, out[4:])))
+        elif unknown:
+            viol.append(({"oracle": "verdict", "call": call, "expected": "unknown", "got": out},
+                         "%s(%s) returned %s although the solver cannot decide" % (call, fid, out)))
+        elif kind == "model":
+            if (mdl is not None) != sat:
+                viol.append(({"oracle": "verdict", "call": call, "expected": str(sat).lower(), "got": out},
+                             "%s(%s) returned %s, brute-force satisfiability is %s" % (call, fid, out, sat)))
+            elif mdl is not None and not any(P.symbols[n]["custom"] for n in names):
+                acc = []
+                model_env_check(P, call, mdl, acc)
+                got = dict((k.symbol_name(), v.constant_value()) for k, v in mdl if v.is_constant())
+                if not all(n in got for n in P.names_of(f.simplify())):
+                    acc.append(["missing-symbol", "%s(%s) has no value for some symbol of the formula: %s" % (call, fid, got)])
+                elif all(n in got for n in names) and not pred(got):
+                    acc.append(["falsifies-assertion", "%s(%s) = %s falsifies the formula" % (call, fid, got)])
+                for k_, t_ in acc[:3]:
+                    viol.append(({"oracle": "model" if k_ in ("missing-symbol", "falsifies-assertion") else "environment",
+                                  "defect": k_, "call": call}, t_))
+        else:
+            expect = sat if kind == "is_sat" else (not sat)
+            if (out == "true") != expect:
+                viol.append(({"oracle": "verdict", "call": call, "expected": str(expect).lower(), "got": out},
+                             "%s(%s) returned %s, brute-force truth is %s" % (call, fid, out, str(expect).lower())))
+        return {"rec": rec, "viol": viol, "req": None, "key": None, "crash": None}
+    except BaseException as e:      # noqa
+        import traceback
+        return {"rec": rec, "viol": [], "req": None, "key": None, "crash": "%r\n%s" % (e, traceback.format_exc()[-1500:])}
+    finally:
+        signal.setitimer(signal.ITIMER_REAL, 0)
+        signal.signal(signal.SIGALRM, old)
+        if comp is not None:
+            comp.close()
+        _CUR = 0
+
+
+def _work(case):
+    global _CUR
+    case = as_case(case)
+    lenient = bool(case.get("lenient"))
+    ops = case["ops"]
+    if case.get("factory"):
+        return _work_factory(case)
+    _CUR = case.get("env", 0) or 0
+    try:
+        rec = run_real(ops, lenient, case.get("layout", 0) or 0, case.get("companion"))
+        rec["real_answer"] = real_answer(rec)      # canonical form, computed in the environment of the case
         viol = analyse(rec)
         return {"rec": rec, "viol": viol, "req": model_request(rec), "key": nontrivial_key(rec), "crash": None}
     except BaseException as e:      # noqa
         import traceback
         return {"rec": {"ops": ops}, "viol": [], "req": None, "key": None,
                 "crash": "%r\n%s" % (e, traceback.format_exc()[-1500:])}
+    finally:
+        _CUR = 0
 
 
 _SHRUNK = {}
@@ -1216,9 +1486,9 @@ def _known():
     return _KNOWN
 
 
-def shrink(ops, sig, max_runs=60):
+def shrink(case, sig, max_runs=60):
     """delete calls one at a time while the same defect (same signature) is still observed"""
-    cur = [list(o) for o in ops]
+    cur = [list(o) for o in case["ops"]]
     runs = 0
     changed = True
     while changed and runs < max_runs:
@@ -1227,7 +1497,7 @@ def shrink(ops, sig, max_runs=60):
             cand = cur[:i] + cur[i + 1:]
             if not cand:
                 continue
-            r = _work(cand)
+            r = _work(dict(case, ops=cand))
             runs += 1
             if not r["crash"] and any(s == sig for s, _ in r["viol"]):
                 cur = cand
@@ -1256,21 +1526,32 @@ def process_results(ctx, results):
             ctx.count("cut: " + rec["cut"])
         if len(ctx.samples) < 5 and r["key"]:
             ctx.sample({"ops": rec["ops"], "outs": rec["outs"], "stream": [c for c, _ in rec["log"]]})
+        for sig, what in list(r["viol"]):
+            skey = "env-selfcontained-%s" % bool(rec.get("factory"))
+            if sig.get("oracle") == "environment" and rec.get("companion") is None and skey not in _SHRUNK:
+                # the defect needed an earlier solver of this process in another environment: a companion provides it
+                _SHRUNK[skey] = True
+                r3 = _work(dict(case_of(rec), companion=(rec.get("env", 0) + 1) % N_ENVS))
+                for sig3, what3 in r3["viol"]:
+                    if sig3 == sig:
+                        ctx.report_s(sig, what3, dict(case_of(r3["rec"]), outs=r3["rec"]["outs"], log=r3["rec"]["log"]))
+                        break
         for sig, what in r["viol"]:
             key = json.dumps(sig, sort_keys=True)
             if key not in _SHRUNK and common.match_known(sig, _known()) is None and len(_SHRUNK) < 5:
                 _SHRUNK[key] = True
-                small = shrink(rec["ops"], sig)
+                small = shrink(case_of(rec), sig) if not rec.get("factory") else rec["ops"]
                 if len(small) < len(rec["ops"]):
-                    r2 = _work(small)
+                    r2 = _work(dict(case_of(rec), ops=small))
                     for sig2, what2 in r2["viol"]:
                         if sig2 == sig:
                             ctx.report_s(sig, what2 + " [shrunk from %d calls]" % len(rec["ops"]),
-                                         {"ops": r2["rec"]["ops"], "outs": r2["rec"]["outs"], "log": r2["rec"]["log"]})
+                                         dict(case_of(r2["rec"]), outs=r2["rec"]["outs"], log=r2["rec"]["log"]))
                             break
-            ctx.report_s(sig, what, {"ops": rec["ops"], "outs": rec["outs"], "log": rec["log"]})
-        reqs.append(r["req"])
-        recs.append(rec)
+            ctx.report_s(sig, what, dict(case_of(rec), outs=rec["outs"], log=rec["log"]))
+        if r["req"] is not None:
+            reqs.append(r["req"])
+            recs.append(rec)
     if not reqs:
         return
     try:
@@ -1286,8 +1567,8 @@ def process_results(ctx, results):
             nk += 1
             if nk <= 20:
                 ctx.report_k("SmtLibSolver differs from Impl/SmtSolver.lean: " + diffs[0],
-                             {"ops": rec["ops"], "request": req, "model": ans, "real_outs": rec["outs"],
-                              "real_stream": [c for c, _ in rec["log"]]})
+                             dict(case_of(rec), request=req, model=ans, real_outs=rec["outs"],
+                                  real_stream=[c for c, _ in rec["log"]]))
     ctx.count("k_divergent_cases", nk)
 
 
@@ -1327,6 +1608,14 @@ def run(ctx):
         _cleanup()
 
 
+def dress(rng, ops, lenient=False):
+    env = rng.choice([0, 0, 1, 2])
+    comp = None
+    if rng.random() < 0.1:
+        comp = rng.choice([k for k in range(N_ENVS) if k != env])
+    return {"ops": ops, "lenient": lenient, "layout": rng.randrange(4), "env": env, "companion": comp}
+
+
 def _run(ctx):
     pool()
     quick = ctx.tier == "quick"
@@ -1337,12 +1626,25 @@ def _run(ctx):
     strict_tie(ctx, 300 if quick else 3000)
     static_oracles(ctx)
     # 1. witnesses
-    run_cases(ctx, SCENARIOS, time.time() + 120)       # the witnesses always run, all of them
+    # every case gets an environment (0 = the global one, 1, 2 = others living in the same process), a layout of the
+    # solver's replies, and sometimes a companion solver alive in another environment
+    scen = []
+    for i, ops in enumerate(SCENARIOS):
+        env = i % N_ENVS
+        scen.append({"ops": ops, "layout": i % 4, "env": env, "companion": (env + 1) % N_ENVS if i % 4 == 1 else None})
+    run_cases(ctx, scen, time.time() + 120)       # the witnesses always run, all of them
+    P = pool()
+    fact = [dict(dress(ctx.rng, [[k, fid]]), factory=True, companion=None)
+            for fid in P.formulas for k in ("is_sat", "is_valid", "is_unsat", "model")]
+    ctx.extra["factory_shortcut_cases"] = run_cases(ctx, fact, time.time() + 60)
+    over = [dress(ctx.rng, o, lenient=True)
+            for o in OVERPOP + [random_overpop(ctx.rng) for _ in range(40 if quick else 400)]]
+    ctx.extra["overpop_cases"] = run_cases(ctx, over, time.time() + 60)
     # 2. exhaustive enumeration (every prefix of a maximal sequence is checked while it runs)
     plan = [(True, 3), (False, 4)] if quick else [(True, 4), (False, 5), (False, 6)]
     exhaustive = []
     for full, length in plan:
-        cases = enumerate_sequences(alphabet(full), length)
+        cases = [dress(ctx.rng, o) for o in enumerate_sequences(alphabet(full), length)]
         budget = (t_end - time.time()) * ((0.55 if (full, length) == plan[0] else 0.75) if quick else 0.45)
         n = run_cases(ctx, cases, time.time() + max(budget, 5))
         exhaustive.append({"alphabet": len(alphabet(full)), "length": length, "sequences": len(cases), "run": n,
@@ -1352,7 +1654,7 @@ def _run(ctx):
     # 3. sampled long sequences until the budget is used
     nlong = 0
     while time.time() < t_end - 4:
-        batch = [random_sequence(ctx.rng, ctx.rng.randint(6, 14)) for _ in range(40 * ctx.workers)]
+        batch = [dress(ctx.rng, random_sequence(ctx.rng, ctx.rng.randint(6, 14))) for _ in range(40 * ctx.workers)]
         nlong += run_cases(ctx, batch, t_end)
     ctx.extra["sampled_long_sequences"] = nlong
 
@@ -1388,6 +1690,8 @@ def replay(ctx, rep):
     pool()
     try:
         _tmp_root()
-        process_results(ctx, [_work([list(o) for o in ops])])
+        case = {"ops": [list(o) for o in ops], "lenient": bool(r.get("lenient")), "layout": r.get("layout", 0) or 0,
+                "env": r.get("env", 0) or 0, "companion": r.get("companion"), "factory": bool(r.get("factory"))}
+        process_results(ctx, [_work(case)])
     finally:
         _cleanup()
